@@ -36,6 +36,15 @@ CALLS = [
 ]
 
 
+# calls whose **-expanded keyword arguments must come from the parameter section documented for that component
+STAR_CALLS = [
+    ("srlife/thermal.py", "ThermohydraulicsThermalSolver", "solve_metal", "FiniteDifferenceImplicitThermalProblem",
+     "deparametrize_finite_difference(self.solid_params)"),
+    ("srlife/thermal.py", "ThermohydraulicsThermalSolver", "solve_fluid", "FlowPath",
+     "flowpath.deparameterize_flow_path(self.thermo_params)"),
+]
+
+
 def find_func(tree, cls, fn):
     body = tree.body
     if cls:
@@ -150,6 +159,27 @@ def generate():
         kws = {k.arg: ast.unparse(k.value) for k in found[0].keywords if k.arg}
         for k, w in want.items():
             calls.append(("%s:%s.%s->%s" % (path, cls, fn, callee), k, kws.get(k, "<missing>"), w))
+    # the parameter sections of the coupled solver: documented keys "solid" and "fluid"
+    node = find_func(trees["srlife/thermal.py"], "ThermohydraulicsThermalSolver", "__init__")
+    for attr, key in (("solid_params", "solid"), ("thermo_params", "fluid")):
+        got = "<missing>"
+        for st in ast.walk(node):
+            if isinstance(st, ast.Assign) and len(st.targets) == 1 and isinstance(st.targets[0], ast.Attribute) \
+                    and st.targets[0].attr == attr:
+                got = classify(st.value, params_of(node))
+        calls.append(("srlife/thermal.py:ThermohydraulicsThermalSolver.__init__", attr, got, "SPset " + coq_str(key)))
+    for path, cls, fn, callee, want in STAR_CALLS:
+        if path not in trees:
+            with open(os.path.join(REPO, path)) as f:
+                trees[path] = ast.parse(f.read())
+        node = find_func(trees[path], cls, fn)
+        found = [c for c in ast.walk(node) if isinstance(c, ast.Call) and
+                 ((isinstance(c.func, ast.Name) and c.func.id == callee) or
+                  (isinstance(c.func, ast.Attribute) and c.func.attr == callee))]
+        if len(found) != 1:
+            raise ValueError("expected exactly one call of %s in %s.%s" % (callee, cls, fn))
+        stars = [ast.unparse(k.value) for k in found[0].keywords if k.arg is None]
+        calls.append(("%s:%s.%s->%s" % (path, cls, fn, callee), "**", "; ".join(stars) if stars else "<missing>", want))
     out = ["(* GENERATED by harness/translators/plumbing.py from /repo's source; do not edit *)",
            "From Coq Require Import QArith List String.", "Import ListNotations.", "Open Scope string_scope.",
            "Inductive src := SParam (p : string) | SPset (key : string) | SConst (v : string) | SOther (e : string).", ""]
